@@ -86,8 +86,10 @@ func (p *Program) genValue(t *rapid.T, ty *Type, o ValOpts, hashed bool, label s
 		for i := 0; i < n; i++ {
 			e := p.genValue(t, r.Elem, o, true, label+"_e")
 			dup := false
+			fe := p.Fill(r.Elem, e)
 			for _, x := range w.Elems {
-				if wm.SemEqual(x, e) {
+				// compare with defaults filled: {} and {f: <default of f>} are the same element
+				if wm.SemEqual(p.Fill(r.Elem, x), fe) {
 					dup = true
 				}
 			}
@@ -105,8 +107,9 @@ func (p *Program) genValue(t *rapid.T, ty *Type, o ValOpts, hashed bool, label s
 		for i := 0; i < n; i++ {
 			k := p.genValue(t, r.Key, o, true, label+"_k")
 			dup := false
+			fk := p.Fill(r.Key, k)
 			for _, x := range w.Pairs {
-				if wm.SemEqual(x.K, k) {
+				if wm.SemEqual(p.Fill(r.Key, x.K), fk) {
 					dup = true
 				}
 			}
